@@ -11,11 +11,43 @@ OPS = ["enqueue", "consume", "ack", "nack", "reject", "requeue", "queue_declare"
 SUBS = ["async-all-args", "sync-subset", "raising", "slow", "extra-default-param", "none"]
 
 
-async def _world():
+_SRV = {}      # id(message broker) -> (backend, fake server), for the Redis / RabbitMQ variants
+
+
+async def _world(backend="mem"):
     from repid import Connection, InMemoryBucketBroker, InMemoryMessageBroker
     from repid.data._key import RoutingKey
     import repid.data._parameters as P
     from repid.connections.in_memory.utils import Message as MemMessage
+    if backend != "mem":
+        # the same starting state on the Redis / RabbitMQ broker classes over their fake servers
+        if backend == "redis":
+            from fakes import redis as fr
+            srv = fr.FakeServer()
+            mb = fr.mk_broker(srv)
+        else:
+            from fakes import amqp as fa
+            mb, _ch, srv = fa.mk_broker()
+        ab = InMemoryBucketBroker()
+        rb = InMemoryBucketBroker(use_result_bucket=True)
+        await mb.queue_declare("default")
+        params = P.Parameters(timestamp=P.datetime.now())
+        key = RoutingKey(topic="job", queue="default", id_="held")
+        await mb.enqueue(key, "pl", params)
+        c0 = mb.get_consumer("default", ["job"])
+        if backend == "redis":
+            c0.POLLING_WAIT = 0
+            got = await c0.consume_or_none()
+        else:
+            await c0.start()
+            got = await asyncio.wait_for(c0.consume(), timeout=1)
+            await c0.finish()
+        assert got is not None and got[0].id_ == "held"
+        await mb.enqueue(RoutingKey(topic="job", queue="default", id_="waiting"), "pw", params)
+        await ab.store_bucket("b1", ab.BUCKET_CLASS(data="x", timestamp=params.timestamp))
+        conn = Connection(mb, ab, rb)
+        _SRV[id(conn.message_broker)] = (backend, srv)
+        return conn, key, params
     mb = InMemoryMessageBroker()
     ab = InMemoryBucketBroker()
     rb = InMemoryBucketBroker(use_result_bucket=True)
@@ -31,6 +63,15 @@ async def _world():
 
 def _state(conn):
     mb = conn.message_broker
+    if id(mb) in _SRV:
+        backend, srv = _SRV[id(mb)]
+        if backend == "redis":
+            from fakes import redis as fr
+            out = {"places": {i: sorted(p[0] for p in v) for i, v in fr.redis_places(srv).items()}, "keys": sorted(srv.kv)}
+        else:
+            out = {"server": srv.snapshot()}
+        out["buckets"] = sorted(conn.args_bucket_broker._InMemoryBucketBroker__storage)
+        return out
     out = {q: {i: sorted(p[0] for p in v) for i, v in mem_places(mb, q).items()} for q in mb.queues}
     out["buckets"] = sorted(conn.args_bucket_broker._InMemoryBucketBroker__storage)
     return out
@@ -55,7 +96,14 @@ async def _perform(conn, op, style, key, params, actor=None, processor=None):
     if op == "consume":
         cons = mb.get_consumer("default", ["job"])
         await cons.start()
-        fn, named = cons.consume, {}
+
+        async def consume_and_finish():
+            try:
+                return await asyncio.wait_for(cons.consume(), timeout=1)
+            finally:
+                if id(mb) in _SRV:
+                    await cons.finish()      # server-side consumers are closed again (the held message goes back)
+        fn, named = (cons.consume if id(mb) not in _SRV else consume_and_finish), {}
     elif op == "actor_run":
         fn = processor.actor_run
         named = {"actor": actor, "key": key, "parameters": params, "payload": "", "connection": conn}
@@ -75,7 +123,7 @@ async def _perform(conn, op, style, key, params, actor=None, processor=None):
         return ("exc", type(e).__name__), named
 
 
-def h17(S, two_connections=None):
+def h17(S, two_connections=None, backend="mem"):
     from repid._processor import _Processor
 
     op = OPS[S.pick("operation", len(OPS))]
@@ -122,18 +170,18 @@ def h17(S, two_connections=None):
 
     async def main(loop):
         # reference run without subscribers
-        ref_conn, key, params = await _world()
+        ref_conn, key, params = await _world(backend)
         ref_proc = _Processor(ref_conn)
         actor = mk_actor(job)
         ref_res, _ = await _perform(ref_conn, op, style, key, params, actor, ref_proc)
         ref_state = _state(ref_conn)
         # observed run
-        conn, key, params = await _world()
+        conn, key, params = await _world(backend)
         proc = _Processor(conn)
         if sub != "none":
             subscribe(conn, log, sub)
         if second:
-            conn2, _, _ = await _world()
+            conn2, _, _ = await _world(backend)
             subscribe(conn2, other_log, "async-all-args")
             _Processor(conn2)          # e.g. a second worker in the same process
         res, named = await _perform(conn, op, style, key, params, actor, proc)
@@ -190,7 +238,7 @@ def h17_nested(S):
     from repid.data._key import RoutingKey
     import repid.data._parameters as P
 
-    which = S.pick("scenario", 7)
+    which = S.pick("scenario", 8)
     log = []
     S.tag("scenario", which)
 
@@ -222,6 +270,38 @@ def h17_nested(S):
                 await c.message_broker.queue_declare("default")
                 await c.message_broker.enqueue(RoutingKey(topic="job", queue="default", id_=n), "p", None)
             log.extend(hears)
+            return
+        elif which == 7:
+            # a live consumer of connection A keeps reporting to A when another connection is constructed later
+            from repid import InMemoryMessageBroker
+            a_log, b_log = [], []
+            ca = Connection(InMemoryMessageBroker())
+            await ca.message_broker.queue_declare("default")
+
+            async def before_consume(tgt=a_log):
+                tgt.append("before_consume")
+
+            async def after_consume(result=None, tgt=a_log):
+                tgt.append("after_consume")
+
+            ca.middleware.add_subscriber(before_consume)
+            ca.middleware.add_subscriber(after_consume)
+            cons = ca.message_broker.get_consumer("default", ["job"])
+            await cons.start()
+            cb = Connection(InMemoryMessageBroker())
+
+            async def before_consume(tgt=b_log):  # noqa: F811
+                tgt.append("before_consume")
+
+            async def after_consume(result=None, tgt=b_log):  # noqa: F811
+                tgt.append("after_consume")
+
+            cb.middleware.add_subscriber(before_consume)
+            cb.middleware.add_subscriber(after_consume)
+            await ca.message_broker.enqueue(RoutingKey(topic="job", queue="default", id_="j1"), "p", None)
+            await asyncio.wait_for(cons.consume(), timeout=1)
+            log.append(("A", a_log))
+            log.append(("B", b_log))
             return
         elif which == 6:
             # the same broker objects wrapped by a second Connection later on (e.g. re-created with other settings):
@@ -301,6 +381,8 @@ def h17_nested(S):
         S.check("nested-operations-emit-nothing", log == ["before_requeue", "after_requeue"], info=str(log))
     elif which == 4:
         S.check("consumer-side-dead-lettering-is-signalled", [x for x in log if "nack" in x] == ["before_nack", "after_nack"], info=str(log))
+    elif which == 7:
+        S.check("a-live-consumer-keeps-reporting-to-its-own-connection", log == [("A", ["before_consume", "after_consume"]), ("B", [])], info=str(log))
     elif which == 6:
         S.check("signals-go-to-the-connection-the-operation-went-through",
                 log == [("old", []), ("new", ["before_store_bucket", "before_enqueue"])], info=str(log))
@@ -322,7 +404,13 @@ HARNESSES = [
                     "connections": "one, or a second connection with its own processor alive in the process"},
             functions=["middlewares/wrapper.py:_middleware_wrapper.__call__", "middlewares/middleware.py:Middleware.emit_signal", "connections/abc.py:_WrappedABC.__new__"],
             covers=["performed", "arguments-checked"]),
-    Harness(name="H17-nested", scenario=h17_nested, bounds={"scenarios": "RabbitMQ requeue (ack + publish inside), Job.enqueue with an args bucket, a failed operation followed by another one in the same task, a cancelled consume followed by another operation, a Redis consumer dead-lettering an expired message, one middleware object shared by two connections, the same broker objects wrapped by a second Connection"},
+    Harness(name="H17-observe-redis", scenario=h17, workers=16, budget_s=900, params={"quick": {"backend": "redis"}, "thorough": {"backend": "redis"}},
+            bounds={"as H17-observe": "on RedisMessageBroker over the fake server (message-broker operations; buckets stay in memory)"},
+            functions=["connections/redis/message_broker.py:RedisMessageBroker.queue_delete"], covers=["performed"], stubs=["fake Redis server"]),
+    Harness(name="H17-observe-rabbit", scenario=h17, workers=16, budget_s=900, params={"quick": {"backend": "rabbit"}, "thorough": {"backend": "rabbit"}},
+            bounds={"as H17-observe": "on RabbitMessageBroker over the fake AMQP channel"},
+            functions=["connections/rabbitmq/message_broker.py:RabbitMessageBroker.requeue"], covers=["performed"], stubs=["fake AMQP server"]),
+    Harness(name="H17-nested", scenario=h17_nested, bounds={"scenarios": "RabbitMQ requeue (ack + publish inside), Job.enqueue with an args bucket, a failed operation followed by another one in the same task, a cancelled consume followed by another operation, a Redis consumer dead-lettering an expired message, one middleware object shared by two connections, the same broker objects wrapped by a second Connection, a consumer alive while another connection is constructed"},
             covers=["nested"], stubs=["fake AMQP channel"]),
 ]
 ASSUMPTIONS = ["differential oracle: the same operation on an identically prepared connection without subscribers", "selectors are discrete (enumeration)"]
